@@ -34,9 +34,18 @@ def exec_CMP(t):
     try:
         # (a NumPy scalar on the left makes NumPy dispatch the comparison; `array_op_method='raw'` is the documented way to ask NumPy
         # operations for raw codes, so that option stays at its default for the Fxp operand of such a line)
-        keep = {'array_op_method': 'repr'} if kind == 'nf' else {}
-        X = mk(a, sx, nx, fx) if kind != 'nf' else (_val(a, fx)[0] if len(a) == 1 else np.array([float(v) for v in _val(a, fx)]))
-        Y = mk(b, sy, ny, fy, **keep) if kind != 'fn' else (_val(b, fy)[0] if len(b) == 1 else np.array([float(v) for v in _val(b, fy)]))
+        keep = {}       # (comparisons compare values under every array_op_method: D73)
+        def mk16(codes, s_, n_, f_, **kw_):
+            # (content-determined) an array object born from single-precision data, the values being exact in it (n_word <= 24)
+            if len(codes) > 1 and (n_ + f_ + codes[0]) % 3 == 0 and -20 <= f_ <= 40:
+                arr = np.array([float(v) for v in _val(codes, f_)], dtype=np.float32)
+                if [Fraction(float(v)) for v in arr] == [Fraction(c) / Fraction(2) ** f_ for c in codes]:
+                    x_ = Fxp(arr, s_, n_, f_, **kw_)
+                    if codes_of(x_) == list(codes):
+                        return x_
+            return mk(codes, s_, n_, f_, **kw_)
+        X = mk16(a, sx, nx, fx) if kind != 'nf' else (_val(a, fx)[0] if len(a) == 1 else np.array([float(v) for v in _val(a, fx)]))
+        Y = mk16(b, sy, ny, fy, **keep) if kind != 'fn' else (_val(b, fy)[0] if len(b) == 1 else np.array([float(v) for v in _val(b, fy)]))
         # the plain number is a Python scalar or (content-determined) the NumPy scalar of the same value: np.float64 / np.int64 are
         # the numbers NumPy code has in its hands
         npnum = lambda v: (np.int64(v) if isinstance(v, int) else np.float64(v)) if not isinstance(v, np.ndarray) and (a[0] + b[0] + nx) % 2 else v
@@ -68,6 +77,10 @@ def exec_NC(t):
         else:
             v = _val(codes, f)
             x = Fxp(v[0] if len(v) == 1 else v, s, n, f)
+            if len(v) == 1 and (codes[0] + n + f) % 3 == 0:
+                # (content-determined) the one value sits in a one-element array of one or two dimensions: float(), int(), bool() of it
+                # are the conversions of that element (D72)
+                x = Fxp([v[0]] if codes[0] % 2 else [[v[0]]], s, n, f)
             if codes_of(x) != codes:
                 return ['SRCFAIL']
         if (n + f + len(codes) + codes[0]) % 2 == 0:
@@ -132,6 +145,16 @@ def generate(tier, rng):
             cb = max(loy, min(hiy, cb))
             a.append(ca); b.append(cb)
         kind = rng.choice(['ff', 'ff', 'fn', 'nf'])
+        if kind != 'ff' and rng.random() < 0.35:
+            # the plain number is any double: a hair (far less than an LSB of the object, less than single precision resolves) off a
+            # stored value, written as a code of a much finer grid
+            fine = rng.randint(1, 26)
+            if kind == 'fn':
+                y = (sy, 52, x[2] + fine)
+                b = [max(-(2 ** 51) if sy else 0, min(2 ** 51 - 1, (ca << fine) + rng.choice([-1, 1, 1, -3, 0]))) for ca in a]
+            else:
+                x = (sx, 52, y[2] + fine)
+                a = [max(-(2 ** 51) if sx else 0, min(2 ** 51 - 1, (cb << fine) + rng.choice([-1, 1, 1, -3, 0]))) for cb in b]
         if kind != 'ff' and not all(abs(v) < 2 ** 53 for v in a + b):
             continue
         if rng.random() < 0.2 and k > 1:
